@@ -46,7 +46,8 @@ func pickHeight(r *rand.Rand, ch *ns.Chain, max int) int {
 
 // kinds of scenario
 var kinds = []string{"no-witness", "no-cf", "block-mutatetx", "block-badwitness", "cfheaders-liar", "consistent-liar",
-	"extra-honest", "unexposed-block-liar", "lighter-fork", "cp-liar-long", "cp-only-liar-long"}
+	"extra-honest", "unexposed-block-liar", "lighter-fork", "cp-liar-long", "cp-only-liar-long",
+	"same-ip-cfheaders-liars", "same-ip-consistent-liars"}
 
 func gen(r *rand.Rand, id int, seed, tipUnix int64, kind string) Hist {
 	h := Hist{}
@@ -88,6 +89,26 @@ func gen(r *rand.Rand, id int, seed, tipUnix int64, kind string) Hist {
 		h.Nodes = []ns.NodeSpec{honest, {Chain: "main", B: ns.Behaviour{Filter: &ns.FilterLie{
 			Height: pickHeight(r, ch, h.ChainLen), InCheckpt: true, InHeaders: true, InFilter: true}}}}
 		h.Expect = []int{0, 1}
+		h.DeadlineMs = 30000
+	case "same-ip-cfheaders-liars", "same-ip-consistent-liars":
+		// Two connections to ONE IP on different ports, both established
+		// before anything is detected, both telling a provable filter-header
+		// lie, plus an honest control peer.  The ban record is keyed by IP,
+		// the disconnect by exact address: when the block manager reports
+		// the two liars one after the other, the second one is already
+		// "banned" (its sibling's record) but still has to be disconnected.
+		mk := func(port int, hgt int) ns.NodeSpec {
+			return ns.NodeSpec{Chain: "main", Addr: fmt.Sprintf("203.0.113.5:%d", port), B: ns.Behaviour{Filter: &ns.FilterLie{
+				Height: hgt, InCheckpt: true, InHeaders: true, InFilter: kind == "same-ip-consistent-liars"}}}
+		}
+		hgt := pickHeight(r, ch, h.ChainLen)
+		h.Nodes = []ns.NodeSpec{mk(18555, hgt), mk(28555, hgt), honest}
+		if r.Intn(2) == 0 {
+			h.Nodes[0], h.Nodes[2] = h.Nodes[2], h.Nodes[0]
+			h.Expect = []int{0, 1, 1}
+		} else {
+			h.Expect = []int{1, 1, 0}
+		}
 		h.DeadlineMs = 30000
 	case "extra-honest":
 		h.Nodes = []ns.NodeSpec{honest, honest, honest}
